@@ -499,6 +499,13 @@ var globMarker types.Type = types.NewNamed(types.NewTypeName(0, nil, "vpGlob", n
 // globMatch: Match on a GlobVal. Exact for literal patterns and "*"+literal / literal+"*" shapes.
 func (e *Engine) globMatch(st *State, g GlobVal, s *Term) *Term {
 	p := g.Pat
+	// character vectors: patterns made of literals, '*' and '?' are matched position by position
+	if p.K && !s.K && !strings.ContainsAny(p.Str, "[{\\") {
+		if cv, ok := charVec(s); ok {
+			e.res.Intrinsics["glob.Match [structural]"]++
+			return e.cvGlob(p.Str, cv)
+		}
+	}
 	r := e.ufCall(st, "globmatch", p, s)[0]
 	if !(p.K && s.K) {
 		meta := Or(StrContains(p, KStr("*")), StrContains(p, KStr("?")), StrContains(p, KStr("[")), StrContains(p, KStr("{")), StrContains(p, KStr("\\")))
